@@ -2,8 +2,9 @@ SPECIFICATION Spec
 CONSTANTS Keys = {1, 2}
           MaxVal = 2
           N = 2
-          BaseMax = 2
+          BaseMax = 1
           Workers = {1}
+          SchedMuts = FALSE
           Sched = FALSE
           EmitCases = TRUE
 INVARIANTS HonestAccepted ParallelEqualsSequential WrongBALRejected CacheIsBase
